@@ -8,6 +8,8 @@
   @Nullable / @CheckForNull - wherever the annotation stands among its modifiers; annotations of the members
   before it do not count.  `static_count_from_source`: the static-method count is the number of declared
   methods with the modifier `static`, whatever its position in the modifier list.
+  `nullable_from_source_iface`: the same for EVERY conventional interface unit (abstract methods annotated
+  before or behind their other modifiers, default / static methods with bodies).
   (Composition of `ident_class_exact` (Props/C01Ident) with `nullable_iff` / the summary definition (Props/C18).)
 -/
 import CocaVerif.Props.C18
@@ -100,5 +102,48 @@ theorem static_count_from_source (u : IUnit) (hname : u.name ≠ "") (hok : ∀ 
 #guard (nullableNames (runFile {} demoNullable.events).nodes) == ["p.Repo.find", "p.Repo.load"]
 #guard (declared demoNullable.members).map (·.1) == ["find", "load", "Repo", "name"]
 #guard (summary [] (runFile {} demoNullable.events).nodes).staticMethodCount == 2
+
+/-! ### interface units -/
+
+theorem map_got (fns : List Fn) (l : List (String × String × Bool × Pos)) (r : List (List Anno × List String × Bool))
+    (h1 : fns.map sig = l) (h2 : fns.map facts = r) :
+    fns.map got = (l.zip r).map fun x => (x.1.1, x.2.1, x.2.2.1, x.2.2.2) := by
+  subst h1 h2
+  induction fns with
+  | nil => rfl
+  | cons f fs ih => simp only [List.map_cons, List.zip_cons_cons, ih, got, sig, facts]
+
+/-- **C18, nullable methods of an interface, from the source**: an abstract method annotated @Nullable / @CheckForNull -
+    before or behind its other modifiers -, a default or static method with a null-mentioning `return` -/
+theorem nullable_from_source_iface (u : IfUnit) (hname : u.name ≠ "") (hok : ∀ m ∈ u.methods, m.ok) (st0 : ISt) (name : String) :
+    name ∈ nullableNames (runFile st0 u.events).nodes ↔
+      ∃ m ∈ u.methods, u.pkg ++ "." ++ u.name ++ "." ++ m.name = name ∧
+        (returnsNull m.body = true ∨ ∃ a ∈ m.annos, a.name = "Nullable" ∨ a.name = "CheckForNull") := by
+  obtain ⟨d, hn, hp, hnm, _, _, hs, hf⟩ := ident_iface_exact u hname hok st0
+  have hc : d.fns.map got = u.methods.map fun m => (m.name, m.annos, m.mods, returnsNull m.body) := by
+    rw [map_got d.fns _ _ hs hf, List.zip_map', List.map_map]
+    rfl
+  rw [C18.nullable_iff, hn]
+  constructor
+  · rintro ⟨d', hd', f, hfm, hfull, hcond⟩
+    have : d' = d := by simpa using hd'
+    subst this
+    have hx : got f ∈ u.methods.map fun m => (m.name, m.annos, m.mods, returnsNull m.body) := by
+      rw [← hc]; exact List.mem_map_of_mem hfm
+    obtain ⟨m, hm, hgm⟩ := List.mem_map.mp hx
+    simp only [got, Prod.mk.injEq] at hgm
+    refine ⟨m, hm, ?_, ?_⟩
+    · rw [← hfull]; simp [Fn.full, hp, hnm, hgm.1]
+    · rw [hgm.2.2.2, hgm.2.1]; exact hcond
+  · rintro ⟨m, hm, hfull, hcond⟩
+    have hx : (m.name, m.annos, m.mods, returnsNull m.body) ∈ d.fns.map got := by
+      rw [hc]; exact List.mem_map_of_mem (f := fun m : IfMethod => (m.name, m.annos, m.mods, returnsNull m.body)) hm
+    obtain ⟨f, hfm, hgf⟩ := List.mem_map.mp hx
+    simp only [got, Prod.mk.injEq] at hgf
+    refine ⟨d, by simp, f, hfm, ?_, ?_⟩
+    · rw [← hfull]; simp [Fn.full, hp, hnm, hgf.1]
+    · rw [hgf.2.2.2, hgf.2.1]; exact hcond
+
+#guard (nullableNames (runFile {} demoIface.events).nodes) == ["p.Finder.find", "p.Finder.first"]
 
 end CocaVerif.Props.C18Source
